@@ -7,30 +7,34 @@ CLAIMED = True
 RULE = ('correspondence (extracted model vs real library, both recording targets): c14_ds = MonoTextStyle::draw_string + measure_string on SYNTHETIC '
         'MonoFont records (atlas of any row length incl. not a multiple of / smaller than the cell width, zero cell, spacing 0..3, arbitrary '
         'baseline and decoration dimensions, StrGlyphMapping with NUL ranges, empty/incomplete/surrogate-spanning ranges, replacement index inside or '
-        'outside the atlas) x all 4x3x3 colour/decoration roles x 4 baselines x strings of mapped, unmapped, control and non-BMP characters x small and '
+        'outside the atlas, up to the edge of index_ok near 2^31/ch and 2^32) x all 4x3x3 colour/decoration roles x 4 baselines x strings of mapped, unmapped, control and non-BMP characters x small and '
         '+-2^20 positions; c14_map = chars/index/contains of random mapping strings; c14_bi / c14_bi_chars / c14_bi_count = every row of the regenerated '
-        'table Gen/FontTable.v against the real constants: all 292 built-in fonts (10 geometry fields) x index of EVERY mapped character + 12 unmapped ones, '
+        'table Gen/FontTable.v against the real constants: all 292 built-in fonts (10 geometry fields + FNV-1a digest of the whole glyph bitmap: fonts/raw file vs font.image.pixel() of the running library) x index of EVERY mapped character + 12 unmapped ones, '
         'all 14 mapping expansions. search (real built-in fonts only, reference = font.image.pixel() of the cell derived from the public glyph_mapping.index): '
         'p_c14_font = every font x every mapped character + control/non-BMP characters x 3 colour modes, one glyph at a time, plus index = position, '
-        'distinct indices, cell inside the atlas; p_c14_codepage = every mapping against the standard code page (Python codecs as independent reference): glyph index of every defined character; p_c14_str = random lines x 16 colour/decoration combinations x baselines on random built-in fonts; p_c14_synth = the same reference on the synthetic custom fonts (spacing, odd atlas row lengths, cells outside the atlas draw nothing).')
+        'distinct indices, cell inside the atlas; p_c14_bitmap = digest of the glyph bitmap of every font in the running library vs the committed reference Proofs/FontGolden.v; p_c14_codepage = every mapping against the standard code page (Python codecs as independent reference): glyph index of every defined character; p_c14_str = random lines x 16 colour/decoration combinations x baselines on random built-in fonts; p_c14_synth = the same reference on the synthetic custom fonts (spacing, odd atlas row lengths, cells outside the atlas draw nothing).')
 EXHAUSTIVE = {'quick': False, 'thorough': False}
-ASSUMPTIONS = ['draw_ok: |position| <= 2^28 and x + n*(cw+spacing) <= 2^28; font_ok: all font fields non-negative (u32) with heights/offsets <= 2^28 '
-               '(the range in which i32/u32 arithmetic of the implementation cannot wrap or saturate; the model is unbounded Z)',
+ASSUMPTIONS = ['draw_ok: |position| <= 2^28 and x + n*(cw+spacing) <= 2^28; font_ok: all font fields non-negative (u32) with heights/offsets <= 2^28; '
+               'index_ok: every glyph index satisfies 0 <= index < 2^32 and (index / glyphs_per_row + 1) * ch < 2^31 (MonoFont::glyph casts `index as u32`, multiplies '
+               'in u32 and casts to i32, mod.rs:109-114; the model is unbounded Z). Together these exclude wrap-around/saturation in draw_string; index_ok is proved '
+               'for every string with every built-in font (C14_builtin_index_ok), custom GlyphMappings returning larger indices are outside the claim',
                'the target is large enough / pixels are compared on an unbounded target; clipping is C03']
 TRUSTED = ['modelled, not verified: the atlas is an abstract bit function (font.image.pixel(x,y) == On); ImageRaw/SubImage pixel order is C09',
            'translate/gen_fonts.py (regex translator, fails closed on unknown shapes) reads the font constants, the mapping strings and the raw file sizes',
            'a string is the list of its code points; char ranges skip the surrogate gap as core::ops::RangeInclusive<char> does']
 PARTIAL = []
-LEVEL_TEXT = ('Proof: 21 Coq theorems. For ANY font record (any atlas row length, spacing, decoration dimensions, any glyph-index function) and ANY string, '
+LEVEL_TEXT = ('Proof: 31 Coq theorems. For ANY font record (any atlas row length, spacing, decoration dimensions, any glyph-index function) and ANY string, '
               'the pixel map of the model of MonoTextStyle::draw_string is characterised completely: pixel (dx,dy) of the i-th cell at x + i*(cw+spacing) shows '
               'the atlas cell the mapping designates (on -> text colour, off -> background or untouched), spacing columns get the background, underline and '
               'strikethrough cover [x, next.x) at the font offsets (underline on top), nothing else is touched; StrGlyphMapping::index is the position of the first '
               'occurrence or the replacement index and is injective on mapped characters. For the built-in fonts the facts are decided by vm_compute over '
               'Gen/FontTable.v, which is regenerated from src/mono_font/generated/*.rs, mapping.rs and fonts/raw on every run: every index (mapped or replacement) '
               'designates a cell completely inside the atlas, raw length = bytes_per_row*height, records are well formed with spacing 0, the n-th mapped '
-              'character has index n, unmapped characters get the index of "?". The hand-written model is tied to the code by differential runs (see rule).')
+              'character has index n, unmapped characters get the index of "?"; end to end: the i-th character of a string drawn with a built-in font shows exactly atlas cell '
+              '(n mod glyphs_per_row, n / glyphs_per_row) for the n-th mapped character and the cell of "?" for an unmapped one; mapped characters own pairwise disjoint cells; '
+              'Text::draw of a one-line text is draw_string at the aligned, baseline-adjusted position. The hand-written model is tied to the code by differential runs (see rule).')
 LEVEL_NOTE = ('Trusted: Coq kernel, extraction, OCaml/Rust drivers, the regex translator. The model of draw_string is validated against the real code by '
-              'differential testing, not proved equal to it. Glyph bitmaps themselves (which bits are on) are data, compared pixel by pixel in the search suites.')
+              'differential testing, not proved equal to it. Glyph bitmaps themselves (which bits are on) are data: the atlas of the running library is tied to the fonts/raw files by a digest per font (c14_bi) and both to a committed reference (C14_builtin_bitmaps_unchanged, p_c14_bitmap), so a changed or swapped bitmap file breaks a proof and drawn glyphs are compared pixel by pixel with font.image in the search suites; WHICH picture sits in a cell has no independent reference (the BDF sources are not in the repository).')
 
 
 def trivial(line, res):
@@ -44,7 +48,7 @@ def table():
     maps = []
     for m in re.finditer(r'\(\* \d+: (\w+) \*\)\nDefinition map_\w+ : bmapping := BMapping \[[^\]]*\]\n  \[([^\]]*)\]\n  \[([^\]]*)\]', src):
         maps.append((m.group(1), [int(v) for v in m.group(3).split(';') if v]))
-    fonts = [(m.group(1), int(m.group(2))) for m in re.finditer(r'\(\* (\w+::FONT_\w+) \*\) BFont \[[^\]]*\] \d+ (\d+) ', src)]
+    fonts = [(m.group(1), int(m.group(2))) for m in re.finditer(r'\(\* (\w+::FONT_\w+) \*\) BFont \[[^\]]*\] \d+ \d+ (\d+) ', src)]
     return maps, fonts
 
 
@@ -145,6 +149,17 @@ def text_from(rng, chars, maxlen=6):
     return [c for c in out if not 0xD800 <= c <= 0xDFFF]
 
 
+def big_index(rng, f):
+    """a replacement index at the edge of index_ok: index < 2^32 and (index / glyphs_per_row + 1) * ch < 2^31"""
+    w, h, cw, ch = f[0], f[1], f[2], f[3]
+    if cw == 0 or w < cw:
+        return rng.choice([2 ** 32 - 1, 2 ** 31, 2 ** 40])        # glyph() returns before calling index(): anything goes
+    gpr = w // cw
+    row = (2 ** 31 - 1) // ch - 1 if ch > 0 else 2 ** 32
+    idx = min(row * gpr + rng.randrange(gpr), 2 ** 32 - 1)
+    return idx - rng.choice([0, 0, 1, gpr])
+
+
 def cases(tier, rng):
     maps, fonts = table()
     yield 'c14_bi_count'
@@ -166,7 +181,7 @@ def cases(tier, rng):
         chars = expand(data)
         f = synth_font(rng, len(chars))
         x, y = position(rng)
-        repl = rng.randrange(0, len(chars) + 3)
+        repl = big_index(rng, f) if k % 25 == 7 else rng.randrange(0, len(chars) + 3)
         yield J('c14_ds', *f, *style(rng, k % 16), x, y, rng.randrange(4), repl, lst(data), lst(text_from(rng, chars)))
 
 
@@ -189,8 +204,16 @@ def codepage(name):
     return out
 
 
+def golden():
+    here = os.path.dirname(os.path.abspath(__file__))
+    src = open(os.path.join(here, '..', 'coq', 'Proofs', 'FontGolden.v')).read()
+    return re.findall(r'\(\* (\w+::FONT_\w+) \*\) \(\[[^\]]*\], (\d+)\)', src)
+
+
 def search(tier, rng):
     maps, fonts = table()
+    for name, dig in golden():
+        yield J('p_c14_bitmap', name, dig)
     for name, _ in maps:
         cp = codepage(name)
         if cp is None:
